@@ -38,25 +38,47 @@ def joinRst : Nat → List (List Ev) → List Ev
   | _, [x] => x
   | n, x :: y :: t => x ++ [Ev.rst (n % 8)] ++ joinRst (n + 1) (y :: t)
 
-/-- events of an AC scan (one component, one block per MCU, `encode_mcu_AC_first` /
-`encode_mcu_AC_refine`): every restart interval is coded by the pure functions of Model/ProgAC.lean
-starting from EOBRUN = 0 and ending with the flush of `emit_restart` / `finish_pass` -/
-def acScanEvents (f : Frame) (hmax vmax : Nat) (coef : Nat → Nat → Nat → Nat → Int)
-    (ci atbl ss se ah al ri : Nat) : List Ev :=
+/-- point transform of a first-pass AC scan: sign · (|c| >> Al) -/
+def pointFirst (al : Nat) (v : Int) : Int :=
+  if v < 0 then - ((v.natAbs / 2 ^ al : Nat) : Int) else ((v.natAbs / 2 ^ al : Nat) : Int)
+
+/-- what a refinement scan looks at: (|c| >> Al, c < 0) -/
+def pointRef (al : Nat) (v : Int) : Nat × Bool := (v.natAbs / 2 ^ al, decide (v < 0))
+
+/-- the bands `ss..se` (zigzag order) of the blocks of an AC scan, one list per restart interval -/
+def acScanBands (f : Frame) (hmax vmax : Nat) (coef : Nat → Nat → Nat → Nat → Int) (ci ss se ri : Nat) : List (List (List Int)) :=
   let c := f.comps.getD ci ⟨0, 1, 1, 0⟩
   let mcusX := ceilDiv (ceilDiv (f.width * c.h) hmax) 8
   let mcusY := ceilDiv (ceilDiv (f.height * c.v) vmax) 8
   let band := fun (m : Nat) =>
     let zzb := blockZZ coef ci (m / mcusX) (m % mcusX)
     (List.range (se - ss + 1)).map (fun j => zzb.getD (ss + j) 0)
-  let blocks := (List.range (mcusX * mcusY)).map band
-  let one := fun (bs : List (List Int)) =>
-    if ah == 0 then
-      ProgAC.firstEv 0 (bs.map (fun b => b.map (fun (v : Int) =>
-        if v < 0 then - ((v.natAbs / 2 ^ al : Nat) : Int) else ((v.natAbs / 2 ^ al : Nat) : Int))))
-    else
-      ProgAC.refEv 0 [] (bs.map (fun b => b.map (fun (v : Int) => (v.natAbs / 2 ^ al, decide (v < 0)))))
-  joinRst 0 ((chunks ri blocks).map (fun bs => (one bs).map (tagAC atbl)))
+  chunks ri ((List.range (mcusX * mcusY)).map band)
+
+/-- events of an AC scan (one component, one block per MCU, `encode_mcu_AC_first` /
+`encode_mcu_AC_refine`), one list per restart interval: every interval is coded by the pure
+functions of Model/ProgAC.lean starting from EOBRUN = 0 and ending with the flush of
+`emit_restart` / `finish_pass` -/
+def acScanIntervals (f : Frame) (hmax vmax : Nat) (coef : Nat → Nat → Nat → Nat → Int) (ci ss se ah al ri : Nat) : List (List ProgAC.Ev) :=
+  (acScanBands f hmax vmax coef ci ss se ri).map (fun bs =>
+    if ah == 0 then ProgAC.firstEv 0 (bs.map (fun b => b.map (pointFirst al)))
+    else ProgAC.refEv 0 [] (bs.map (fun b => b.map (pointRef al))))
+
+def acScanEvents (f : Frame) (hmax vmax : Nat) (coef : Nat → Nat → Nat → Nat → Int)
+    (ci atbl ss se ah al ri : Nat) : List Ev :=
+  joinRst 0 ((acScanIntervals f hmax vmax coef ci ss se ah al ri).map (fun iv => iv.map (tagAC atbl)))
+
+def joinRstBytes : Nat → List (List Nat) → List Nat
+  | _, [] => []
+  | _, [x] => x
+  | n, x :: y :: t => x ++ [0xFF, 0xD0 + n % 8] ++ joinRstBytes (n + 1) (y :: t)
+
+/-- the entropy-coded data of an AC scan: every interval is `ProgAC.evBits` of its events under the
+scan's table, padded and stuffed (`Bits.segmentBytes`), intervals joined by RSTn -/
+def acScanBytes (c : CDerived) (ivs : List (List ProgAC.Ev)) : Option (List Nat) :=
+  if ivs.all (fun iv => iv.all (fun e => match e with | .sym s => (Huff.encode c s).isSome | _ => true)) then
+    some (joinRstBytes 0 (ivs.map (fun iv => Bits.segmentBytes (ProgAC.evBits (fun s => (Huff.encode c s).getD []) iv))))
+  else none
 
 /-- events of one scan.  `scs`: (frame component index, dc table, ac table). -/
 def scanEvents (f : Frame) (hmax vmax : Nat) (coef : Nat → Nat → Nat → Nat → Int)
@@ -126,7 +148,7 @@ def emitEvents (evs : List Ev) (tab : Bool → Nat → Option CDerived) : Option
       match (tab d t).bind (fun c => Huff.encode c s) with
       | none => return none
       | some bs => cur := cur.push bs
-    | .bits v n => cur := cur.push (LL.natBits (v % 2 ^ n) n)
+    | .bits v n => cur := cur.push (LL.natBits v n)
     | .rst n =>
       out := out ++ Bits.segmentBytes cur.toList.flatten ++ [0xFF, 0xD0 + n]
       cur := #[]
@@ -179,9 +201,19 @@ def encodeFile (w h : Nat) (comps : List (Nat × Nat)) (qs : List (List Nat)) (r
     s := s ++ marker o 0xDA hdr
     let lookup := fun (d : Bool) (t : Nat) =>
       if d != isDC then none else (tabs.find? (·.1 == t)).bind (fun p => mkCDerived d false p.2)
-    match emitEvents evs lookup with
-    | none => return none
-    | some bytes => s := s ++ bytes
+    if ss != 0 then
+      -- AC scan: the bits are `ProgAC.evBits` of the interval events (the function the round-trip theorems are about)
+      let ci := cis.headD 0
+      match lookup false (cls ci) with
+      | none => return none
+      | some c =>
+        match acScanBytes c (acScanIntervals f hmax vmax coef ci ss se ah al ri) with
+        | none => return none
+        | some bytes => s := s ++ bytes
+    else
+      match emitEvents evs lookup with
+      | none => return none
+      | some bytes => s := s ++ bytes
   return some (s ++ [0xFF, 0xD9])
 
 end LJT.ProgHuff
